@@ -626,7 +626,10 @@ func (f *fctx) sliceInstr(ins *ssa.Slice) {
 			hi = f.val(ins.High)
 		}
 		if ins.Max != nil {
-			f.fail("3-index slice")
+			// s[lo:hi:max] has the elements of s[lo:hi]; capacity is not modelled, so the bound max <= cap(s) is
+			// checked conservatively as max <= len(s)
+			mx := f.val(ins.Max)
+			f.oblige("S", fmt.Sprintf("S/slice-max@%s", f.insID(ins)), T(SBool, "(and (<= %s %s) (<= %s (seq.len %s)))", hi.S, mx.S, mx.S, x.S), ins.Pos(), "3-index slice: high <= max <= len (cap not modelled)")
 		}
 		f.oblige("S", fmt.Sprintf("S/slice@%s", f.insID(ins)), T(SBool, "(and (<= 0 %s) (<= %s %s) (<= %s (seq.len %s)))", lo.S, lo.S, hi.S, hi.S, x.S), ins.Pos(), "slice bounds in range (len; cap not modelled)")
 		if lo.S == "0" {
